@@ -59,6 +59,18 @@ type c14Sym struct {
 	// Look != nil: a runtime lookahead predicate `(?= X<args> & !Y)` (predicate family; not representable in
 	// the index-level protocol of the Lean mirror, checked by the Go oracle only)
 	Look []c14LookRef
+	// Set != nil: a token-set symbol `set(leaf | leaf …)` (set family; Go oracle only)
+	Set []c14SetLeaf
+}
+
+// c14SetLeaf: one operand of a token-set union: a terminal, `first N<args>` / `last N<args>`, or a NAMED set
+// (`%generate sK = set(…);`, index in c14Gram.Sets).
+type c14SetLeaf struct {
+	Term  int    // > 0: terminal
+	Op    string // "first" | "last"
+	NT    int
+	Args  []c14Arg // explicit values only (token sets have no enclosing nonterminal)
+	Named int      // >= 0: reference to a named set (then the other fields are unused); -1 otherwise
 }
 
 type c14LookRef struct {
@@ -103,6 +115,8 @@ type c14Gram struct {
 	Inputs []c14In
 	Feat   map[string]bool
 	Pred   bool // predicate family: contains `(?= …)` symbols
+	Sets   [][]c14SetLeaf // named sets `%generate s<i> = set(…);` (set family)
+	HasSet bool
 }
 
 var c14ValText = []string{`"false"`, `"true"`, `"x"`}
@@ -126,6 +140,9 @@ func (g *c14Gram) TM(name string) string {
 	}
 	fmt.Fprintf(&sb, "%%input %s;\n", strings.Join(ins, ", "))
 	sb.WriteString(g.Assoc)
+	for i, st := range g.Sets {
+		fmt.Fprintf(&sb, "%%generate s%d = set(%s);\n", i, g.setText(st))
+	}
 	for _, p := range g.Params {
 		if !p.Global {
 			continue
@@ -183,6 +200,10 @@ func (g *c14Gram) TM(name string) string {
 					fmt.Fprintf(&sb, "'%s'", c14TermName(s.Term))
 					continue
 				}
+				if s.Set != nil {
+					fmt.Fprintf(&sb, "set(%s)", g.setText(s.Set))
+					continue
+				}
 				if s.Look != nil {
 					var ps []string
 					for _, l := range s.Look {
@@ -224,6 +245,21 @@ func (g *c14Gram) TM(name string) string {
 		sb.WriteString(";\n")
 	}
 	return sb.String()
+}
+
+func (g *c14Gram) setText(l []c14SetLeaf) string {
+	var ps []string
+	for _, x := range l {
+		switch {
+		case x.Named >= 0:
+			ps = append(ps, fmt.Sprintf("s%d", x.Named))
+		case x.Term > 0:
+			ps = append(ps, "'"+c14TermName(x.Term)+"'")
+		default:
+			ps = append(ps, x.Op+" "+g.refText(x.NT, x.Args))
+		}
+	}
+	return strings.Join(ps, " | ")
 }
 
 func (g *c14Gram) refText(nt int, args []c14Arg) string {
@@ -528,6 +564,8 @@ func (s *c14Sys) ends(w []int, pl map[int]bool) [][]uint32 {
 }
 
 type c14Sem struct {
+	offPath  bool // some operand `first/last N<args>` names an instance that the input does not reach through references
+	emptySet bool // some token-set symbol denotes the empty set (then `Expand` produces an empty rule: C13's finding class)
 	sys   c14Sys // the same system with predicate items (alts below has no entry for them)
 	keys  []string
 	index map[string]int
@@ -555,10 +593,57 @@ func (g *c14Gram) sem() *c14Sem {
 	for _, in := range g.Inputs {
 		get(in.NT, zero)
 	}
+	// token sets: a set symbol is a key of its own (nt = -1) whose alternatives (one terminal each) are filled in
+	// when all nonterminal keys are expanded; leaves of named sets are flattened
+	type setKey struct {
+		key    int
+		leaves []c14SetLeaf
+	}
+	var setKeys []setKey
+	var flat func(l []c14SetLeaf, depth int) []c14SetLeaf
+	flat = func(l []c14SetLeaf, depth int) []c14SetLeaf {
+		var out []c14SetLeaf
+		for _, x := range l {
+			if x.Named >= 0 {
+				if depth < 8 && x.Named < len(g.Sets) {
+					out = append(out, flat(g.Sets[x.Named], depth+1)...)
+				}
+			} else {
+				out = append(out, x)
+			}
+		}
+		return out
+	}
+	leafEnv := func(x c14SetLeaf) []int { // explicit values, defaults for the other declared parameters
+		env := make([]int, len(g.Params))
+		for _, p := range g.NTs[x.NT].Params {
+			if g.Params[p].Dflt >= 0 {
+				env[p] = g.Params[p].Dflt
+			}
+		}
+		for _, a := range x.Args {
+			env[a.Param] = a.X
+		}
+		return env
+	}
+	// the named sets are instantiated whether used or not
+	for _, st := range g.Sets {
+		for _, x := range flat(st, 0) {
+			if x.Term == 0 {
+				get(x.NT, leafEnv(x))
+			}
+		}
+	}
 	for i := 0; i < len(s.keys) && i < 5000; i++ {
 		nt, env := s.nts[i], s.envs[i]
 		var alts [][]int
 		var sysAlts [][]c14Item
+		if nt < 0 {
+			s.alts = append(s.alts, nil)
+			s.sys.Alts = append(s.sys.Alts, nil)
+			s.dead = append(s.dead, false)
+			continue
+		}
 		for _, a := range g.NTs[nt].Alts {
 			if a.Pred != nil && !a.Pred.eval(env) {
 				continue
@@ -571,6 +656,18 @@ func (g *c14Gram) sem() *c14Sem {
 				case sym.Term > 0:
 					rhs = append(rhs, sym.Term)
 					items = append(items, c14Item{Term: sym.Term})
+					first = false
+				case sym.Set != nil:
+					leaves := flat(sym.Set, 0)
+					for _, x := range leaves {
+						if x.Term == 0 {
+							get(x.NT, leafEnv(x))
+						}
+					}
+					k := get(-1, []int{len(setKeys)})
+					setKeys = append(setKeys, setKey{k, leaves})
+					rhs = append(rhs, -(k + 1))
+					items = append(items, c14Item{Key: k})
 					first = false
 				case sym.Look != nil:
 					var la []c14LAp
@@ -592,6 +689,130 @@ func (g *c14Gram) sem() *c14Sem {
 		s.alts = append(s.alts, alts)
 		s.sys.Alts = append(s.sys.Alts, sysAlts)
 		s.dead = append(s.dead, len(alts) == 0)
+	}
+	for changedSets := len(setKeys) > 0; changedSets; {
+		changedSets = false
+		// nullable / first / last of every key by the usual fixpoints over the enabled alternatives (the set keys take part
+		// with the terminals found so far: sets may refer to nonterminals that contain set symbols)
+		n := len(s.alts)
+		nullable := make([]bool, n)
+		first := make([]map[int]bool, n)
+		last := make([]map[int]bool, n)
+		for k := range first {
+			first[k], last[k] = map[int]bool{}, map[int]bool{}
+		}
+		for ch := true; ch; {
+			ch = false
+			for k, alts := range s.alts {
+				for _, alt := range alts {
+					all := true
+					for _, x := range alt {
+						if x > 0 || !nullable[-x-1] {
+							all = false
+							break
+						}
+					}
+					if all && !nullable[k] {
+						nullable[k] = true
+						ch = true
+					}
+					scan := func(dst map[int]bool, src []map[int]bool, seq []int) {
+						for _, x := range seq {
+							if x > 0 {
+								if !dst[x] {
+									dst[x] = true
+									ch = true
+								}
+								return
+							}
+							for t := range src[-x-1] {
+								if !dst[t] {
+									dst[t] = true
+									ch = true
+								}
+							}
+							if !nullable[-x-1] {
+								return
+							}
+						}
+					}
+					scan(first[k], first, alt)
+					rev := make([]int, len(alt))
+					for i, x := range alt {
+						rev[len(alt)-1-i] = x
+					}
+					scan(last[k], last, rev)
+				}
+			}
+		}
+		for _, sk := range setKeys {
+			ts := map[int]bool{}
+			for _, x := range sk.leaves {
+				if x.Term > 0 {
+					ts[x.Term] = true
+					continue
+				}
+				src := first
+				if x.Op == "last" {
+					src = last
+				}
+				for t := range src[s.index[fmt.Sprint(x.NT, leafEnv(x))]] {
+					ts[t] = true
+				}
+			}
+			var list []int
+			for t := range ts {
+				list = append(list, t)
+			}
+			sort.Ints(list)
+			if len(list) != len(s.alts[sk.key]) {
+				changedSets = true
+				s.alts[sk.key], s.sys.Alts[sk.key] = nil, nil
+				for _, t := range list {
+					s.alts[sk.key] = append(s.alts[sk.key], []int{t})
+					s.sys.Alts[sk.key] = append(s.sys.Alts[sk.key], []c14Item{{Term: t}})
+				}
+			}
+		}
+	}
+	for _, sk := range setKeys {
+		if len(s.alts[sk.key]) == 0 {
+			s.emptySet = true
+		}
+	}
+	if len(setKeys) > 0 || len(g.Sets) > 0 {
+		reach := make([]bool, len(s.alts))
+		var st []int
+		for _, in := range g.Inputs {
+			k := s.index[fmt.Sprint(in.NT, zero)]
+			reach[k] = true
+			st = append(st, k)
+		}
+		for len(st) > 0 {
+			k := st[len(st)-1]
+			st = st[:len(st)-1]
+			for _, alt := range s.alts[k] {
+				for _, x := range alt {
+					if x < 0 && !reach[-x-1] {
+						reach[-x-1] = true
+						st = append(st, -x-1)
+					}
+				}
+			}
+		}
+		chk := func(l []c14SetLeaf) {
+			for _, x := range flat(l, 0) {
+				if x.Term == 0 && !reach[s.index[fmt.Sprint(x.NT, leafEnv(x))]] {
+					s.offPath = true
+				}
+			}
+		}
+		for _, st := range g.Sets {
+			chk(st)
+		}
+		for _, sk := range setKeys {
+			chk(sk.leaves)
+		}
 	}
 	return s
 }
@@ -915,6 +1136,7 @@ func (w *c14Worker) call(text string) string {
 type c14Cfg struct {
 	bad  float64 // probability of each deliberately invalid choice
 	pred bool    // predicate family: runtime lookahead predicates `(?= X)` with templated targets, no lookahead flags
+	sets bool    // set family: `%generate` named sets and `set(…)` symbols over templated nonterminals, no lookahead flags
 }
 
 func c14GenPred(r *rand.Rand, g *c14Gram, avail []int) (*c14Pred, string) {
@@ -981,7 +1203,7 @@ func c14Gen(r *rand.Rand, cfg c14Cfg) *c14Gram {
 			nLA = 2
 		}
 	}
-	if cfg.pred {
+	if cfg.pred || cfg.sets {
 		nLA = 0
 		if nGlobal == 0 {
 			nGlobal = 1
@@ -1005,8 +1227,8 @@ func c14Gen(r *rand.Rand, cfg c14Cfg) *c14Gram {
 	nGlob := len(g.Params)
 	nNT := 2 + r.Intn(4)
 	nIn := 1
-	if nNT >= 3 && r.Intn(3) == 0 {
-		nIn = 2
+	if nNT >= 3 && r.Intn(3) == 0 && !cfg.sets {
+		nIn = 2 // (token sets are computed on what the first input reaches: one input in the set family)
 	}
 	// by-name mode: most nonterminals declare an inline `flag X = v` of their own (one parameter index each),
 	// references between them mostly leave X out (propagation by NAME), its value is made visible
@@ -1067,7 +1289,7 @@ func c14Gen(r *rand.Rand, cfg c14Cfg) *c14Gram {
 		g.NTs = append(g.NTs, nt)
 	}
 	for i := 0; i < nIn; i++ {
-		g.Inputs = append(g.Inputs, c14In{NT: i, Eoi: r.Intn(5) != 0})
+		g.Inputs = append(g.Inputs, c14In{NT: i, Eoi: r.Intn(5) != 0 || cfg.sets})
 	}
 	// which nonterminals look at a lookahead flag in a predicate
 	usesLA := make([][]int, nNT)
@@ -1213,7 +1435,7 @@ func c14Gen(r *rand.Rand, cfg c14Cfg) *c14Gram {
 				stack = stack[:len(stack)-1]
 				for _, a := range g.NTs[n].Alts {
 					for _, sy := range a.RHS {
-						if sy.Term == 0 && sy.Look == nil && !reach[sy.NT] {
+						if sy.Term == 0 && sy.Look == nil && sy.Set == nil && !reach[sy.NT] {
 							reach[sy.NT] = true
 							stack = append(stack, sy.NT)
 						}
@@ -1246,6 +1468,162 @@ func c14Gen(r *rand.Rand, cfg c14Cfg) *c14Gram {
 			g.NTs[cn].Alts = append(al[:len(al)-1:len(al)-1], alt, al[len(al)-1])
 		}
 	}
+	// recursive self-references that SWAP or RENAME the nonterminal's own parameters: `[P] 'a' N<P: Q, Q: P> | [Q] 'b' N<P: Q, Q: P>`,
+	// entered from the input with different values for the two parameters
+	for n := nIn; n < nNT; n++ {
+		ps := g.NTs[n].Params
+		if len(ps) < 2 || r.Intn(5) >= 2 {
+			continue
+		}
+		pi := r.Perm(len(ps))
+		p1, p2 := ps[pi[0]], ps[pi[1]]
+		self := func() c14Sym {
+			sy := c14Sym{NT: n}
+			for _, p := range ps {
+				from := p
+				switch p {
+				case p1:
+					from = p2
+				case p2:
+					if r.Intn(4) != 0 { // swap; otherwise a renaming p1 := p2, p2 := p2
+						from = p1
+					}
+				}
+				sy.Args = append(sy.Args, c14Arg{Param: p, From: true, X: from, Style: 2})
+			}
+			r.Shuffle(len(sy.Args), func(i, j int) { sy.Args[i], sy.Args[j] = sy.Args[j], sy.Args[i] })
+			return sy
+		}
+		var extra []c14Alt
+		for k, p := range []int{p1, p2} {
+			alt := c14Alt{Pred: &c14Pred{Op: 'E', P: p, V: 1}, PredText: g.Params[p].Name}
+			alt.RHS = []c14Sym{{Term: 1 + (k+r.Intn(2))%(g.NT-1)}, self()}
+			if r.Intn(3) == 0 {
+				alt.RHS = []c14Sym{self(), {Term: 1 + r.Intn(g.NT-1)}}
+			}
+			extra = append(extra, alt)
+		}
+		g.NTs[n].Alts = append(extra, g.NTs[n].Alts...)
+		g.Feat["self-reference swapping parameters"] = true
+		g.Feat["pred"] = true
+		for v := 0; v < 2; v++ {
+			var args []c14Arg
+			for _, x := range mkArgs(0, n) {
+				if x.Param != p1 && x.Param != p2 {
+					args = append(args, x)
+				}
+			}
+			args = append(args, c14Arg{Param: p1, X: v, Style: r.Intn(2)}, c14Arg{Param: p2, X: 1 - v, Style: r.Intn(2)})
+			in := c14Alt{RHS: []c14Sym{{Term: 1 + r.Intn(g.NT-1)}, {NT: n, Args: args}}}
+			ia := g.NTs[0].Alts
+			g.NTs[0].Alts = append(ia[:len(ia)-1:len(ia)-1], in, ia[len(ia)-1])
+		}
+	}
+	// set family: named sets whose operands are terminals, `first N<args>` / `last N<args>` (explicit values, defaults)
+	// and EARLIER NAMED SETS (also a named set that is just one leaf, referenced from another one); `set(…)` symbols
+	// in alternatives refer to named sets or are written inline
+	if cfg.sets {
+		g.HasSet = true
+		g.Feat["token sets"] = true
+		// operands only over nonterminals that (transitively) contain no set symbol: pick the targets first, keep set symbols out of what they reach
+		closureS := func(root int) map[int]bool {
+			seen := map[int]bool{root: true}
+			st := []int{root}
+			for len(st) > 0 {
+				n := st[len(st)-1]
+				st = st[:len(st)-1]
+				for _, a := range g.NTs[n].Alts {
+					for _, sy := range a.RHS {
+						if sy.Term == 0 && sy.Look == nil && sy.Set == nil && !seen[sy.NT] {
+							seen[sy.NT] = true
+							st = append(st, sy.NT)
+						}
+					}
+				}
+			}
+			return seen
+		}
+		var setTargets []int
+		plainS := map[int]bool{}
+		for _, n := range r.Perm(nNT - nIn) {
+			n += nIn
+			cl := closureS(n)
+			if !cl[0] && len(setTargets) < 2 {
+				setTargets = append(setTargets, n)
+				for k := range cl {
+					plainS[k] = true
+				}
+			}
+		}
+		leaf := func(maxNamed int) c14SetLeaf {
+			switch k := r.Intn(10); {
+			case k < 2:
+				return c14SetLeaf{Term: 1 + r.Intn(g.NT-1), Named: -1}
+			case k < 5 && maxNamed > 0:
+				return c14SetLeaf{Named: r.Intn(maxNamed)}
+			}
+			if len(setTargets) == 0 {
+				return c14SetLeaf{Term: 1 + r.Intn(g.NT-1), Named: -1}
+			}
+			t := setTargets[r.Intn(len(setTargets))]
+			x := c14SetLeaf{Op: []string{"first", "first", "last"}[r.Intn(3)], NT: t, Named: -1}
+			for _, p := range g.NTs[t].Params {
+				if g.Params[p].Dflt < 0 || r.Intn(3) != 0 {
+					x.Args = append(x.Args, c14Arg{Param: p, X: r.Intn(2), Style: r.Intn(2)})
+				}
+			}
+			// the same instance is also referenced from the input (sets are computed on the rules the input reaches)
+			if r.Intn(8) != 0 {
+				in := c14Alt{RHS: []c14Sym{{Term: 1 + r.Intn(g.NT-1)}, {NT: t, Args: append([]c14Arg(nil), x.Args...)}}}
+				ia := g.NTs[0].Alts
+				g.NTs[0].Alts = append(ia[:len(ia)-1:len(ia)-1], in, ia[len(ia)-1])
+			}
+			return x
+		}
+		expr := func(maxNamed int) []c14SetLeaf {
+			var l []c14SetLeaf
+			for k, cnt := 0, 1+r.Intn(3)/2+r.Intn(2); k < cnt; k++ {
+				l = append(l, leaf(maxNamed))
+			}
+			return l
+		}
+		for k, cnt := 0, 1+r.Intn(3); k < cnt; k++ {
+			if k == 0 || r.Intn(3) == 0 {
+				// the whole body is ONE leaf over a nonterminal
+				x := leaf(0)
+				for tries := 0; x.Term > 0 && tries < 20; tries++ {
+					x = leaf(0)
+				}
+				g.Sets = append(g.Sets, []c14SetLeaf{x})
+			} else {
+				g.Sets = append(g.Sets, expr(k))
+			}
+		}
+		for n := range g.NTs {
+			if plainS[n] {
+				continue
+			}
+			for ai := range g.NTs[n].Alts {
+				a := &g.NTs[n].Alts[ai]
+				if len(a.RHS) == 0 || r.Intn(5) >= 3 {
+					continue
+				}
+				var st []c14SetLeaf
+				if r.Intn(3) != 0 {
+					st = []c14SetLeaf{{Named: r.Intn(len(g.Sets))}}
+					if r.Intn(3) == 0 {
+						st = append(st, leaf(len(g.Sets)))
+					}
+				} else {
+					st = expr(len(g.Sets))
+				}
+				pos := r.Intn(len(a.RHS) + 1)
+				rhs := append([]c14Sym(nil), a.RHS[:pos]...)
+				rhs = append(rhs, c14Sym{Set: st})
+				a.RHS = append(rhs, a.RHS[pos:]...)
+			}
+		}
+	}
 	// predicate family: `(?= X<args> & !Y)` in front of / between the symbols of alternatives. Targets are templated
 	// nonterminals; nothing reachable from a target gets a predicate (two strata), arguments as for any reference
 	// (explicit, by name, by default).
@@ -1260,7 +1638,7 @@ func c14Gen(r *rand.Rand, cfg c14Cfg) *c14Gram {
 				st = st[:len(st)-1]
 				for _, a := range g.NTs[n].Alts {
 					for _, sy := range a.RHS {
-						if sy.Term == 0 && sy.Look == nil && !seen[sy.NT] {
+						if sy.Term == 0 && sy.Look == nil && sy.Set == nil && !seen[sy.NT] {
 							seen[sy.NT] = true
 							st = append(st, sy.NT)
 						}
@@ -1701,6 +2079,85 @@ func c14GenLAFam(r *rand.Rand) *c14Gram {
 	return g
 }
 
+// c14GenShareFam: a templated nonterminal with THREE declared parameters is referenced several times WITHOUT an
+// argument list from one nonterminal (all arguments by name or by default), once as the first symbol and again later,
+// while a lookahead flag flows through the first symbol only: `S<A, B, C>: T '+' T;  T<A, B, C>: [!L && A] 'a' | [L] 'b' | …`.
+func c14GenShareFam(r *rand.Rand) *c14Gram {
+	g := &c14Gram{NT: 5, Feat: map[string]bool{"lookahead": true, "shared implicit arguments family": true, "pred": true, "propagated": true}}
+	for i := 0; i < 3; i++ {
+		g.Params = append(g.Params, c14Param{Name: string(rune('A' + i)), Dflt: r.Intn(3) - 1, Global: true})
+	}
+	nF := 1 + r.Intn(4)/3
+	for i := 0; i < nF; i++ {
+		g.Params = append(g.Params, c14Param{Name: string(rune('L' + i)), Dflt: -1, LA: true, Global: true})
+	}
+	term := func() c14Sym { return c14Sym{Term: 1 + r.Intn(g.NT-1)} }
+	// T
+	t := c14NT{Name: "N2", Params: r.Perm(3)}
+	for k, cnt := 0, 3+r.Intn(2); k < cnt; k++ {
+		av := []int{0, 1, 2, 3}
+		if nF > 1 {
+			av = append(av, 4)
+		}
+		if k == 0 {
+			av = []int{3}
+		}
+		pr, txt := c14GenPred(r, g, av)
+		alt := c14Alt{Pred: pr, PredText: txt, RHS: []c14Sym{term()}}
+		if r.Intn(3) == 0 {
+			alt.RHS = append(alt.RHS, term())
+		}
+		t.Alts = append(t.Alts, alt)
+	}
+	t.Alts = append(t.Alts, c14Alt{RHS: []c14Sym{term()}})
+	// S: declares the parameters of T that have no default (and some of the others)
+	s := c14NT{Name: "N1"}
+	for _, p := range r.Perm(3) {
+		if g.Params[p].Dflt < 0 || r.Intn(3) != 0 {
+			s.Params = append(s.Params, p)
+		}
+	}
+	ref := func() c14Sym { return c14Sym{NT: 2} }
+	a1 := c14Alt{RHS: []c14Sym{ref(), term(), ref()}}
+	if r.Intn(3) == 0 {
+		a1.RHS = append(a1.RHS, term(), ref())
+	}
+	s.Alts = append(s.Alts, a1)
+	if r.Intn(2) == 0 {
+		s.Alts = append(s.Alts, c14Alt{RHS: []c14Sym{term(), ref()}})
+	}
+	if r.Intn(3) == 0 {
+		s.Alts = append(s.Alts, c14Alt{RHS: []c14Sym{ref()}})
+	}
+	// input
+	in := c14NT{Name: "N0"}
+	for k, cnt := 0, 2+r.Intn(2); k < cnt; k++ {
+		sy := c14Sym{NT: 1}
+		for _, p := range s.Params {
+			sy.Args = append(sy.Args, c14Arg{Param: p, X: r.Intn(2), Style: r.Intn(2)})
+		}
+		for f := 0; f < nF; f++ {
+			if k == 0 && f == 0 {
+				sy.Args = append(sy.Args, c14Arg{Param: 3, X: 1, Style: r.Intn(2)})
+			} else if r.Intn(2) == 0 {
+				sy.Args = append(sy.Args, c14Arg{Param: 3 + f, X: r.Intn(2), Style: r.Intn(2)})
+			}
+		}
+		alt := c14Alt{RHS: []c14Sym{sy}}
+		if r.Intn(2) == 0 {
+			alt.RHS = []c14Sym{term(), sy}
+		}
+		in.Alts = append(in.Alts, alt)
+	}
+	if nF > 1 { // the second flag has to reach T somewhere
+		in.Alts = append(in.Alts, c14Alt{RHS: []c14Sym{term(), {NT: 2, Args: []c14Arg{{Param: 0, X: 1}, {Param: 1, X: 0}, {Param: 2, X: 1}, {Param: 4, X: 1}}}}})
+	}
+	in.Alts = append(in.Alts, c14Alt{RHS: []c14Sym{term()}})
+	g.NTs = []c14NT{in, s, t}
+	g.Inputs = []c14In{{NT: 0, Eoi: true}}
+	return g
+}
+
 // ---- the fixed witness of the finding ----
 
 const c14DeadToken = "[C14-dead-instance-epsilon]"
@@ -1922,7 +2379,7 @@ func c14(c *Ctx) {
 		"alternatives), in 2 of 5 grammars alternatives (conditional ones more often) carry `%prec 't'` (with %left/%right/%nonassoc declarations), `-> Node` and state markers " +
 		"`.m` in any combination (text only: they must not change the rules), lookahead arguments placed preferably where the flag can be used; in 9 of 10 grammars every nonterminal is made reachable from an input; " +
 		"2 grammars in 10 come from the lookahead-FLAG family (2-3 flags, leaves looking at subsets of them, middle nonterminals whose alternatives start with references pinning " +
-		"different flags `C<~V> … | D<+W> | E` in random order, every flag supplied to its users somewhere); 2 in 10 from the lookahead-PREDICATE family (`(?= X<args> & !Y)` with templated " +
+		"different flags `C<~V> … | D<+W> | E` in random order, every flag supplied to its users somewhere); 1 in 10 from the family of shared implicit arguments (a nonterminal with three declared parameters referenced several times without an argument list from one nonterminal, first symbol and later, one lookahead flag flowing through); 1 in 10 from the token-set family (`%generate` named sets whose operands are terminals, `first N<args>` / `last N<args>` and earlier named sets, also a named set that is one leaf; `set(…)` symbols in alternatives; no lookahead flags; semantic comparison only: the sets computed on the templates vs the instantiated `setof_…` nonterminals); in 2 of 5 of the general grammars a nonterminal with two or more parameters gets guarded recursive self-references that swap or rename its own parameters and is entered with different values; 2 in 10 from the lookahead-PREDICATE family (`(?= X<args> & !Y)` with templated " +
 		"targets, arguments explicit / by name / by default, no lookahead flags; compared semantically only, with a position-based recogniser that evaluates each predicate on the template of " +
 		"its target resp. on the instantiated target of the compiled lookahead nonterminal, strings up to length 4-5); a small fraction of deliberately invalid choices (undeclared parameter in a " +
 		"predicate, parametrized input, uninitialized parameter, unusable lookahead argument, nullable nonterminal on a lookahead path). Each grammar is compiled by the real " +
@@ -2008,7 +2465,7 @@ func c14(c *Ctx) {
 			c14ShortToken+" "+c14OneLine(sg.TM("c14short"))+" :: acc")
 	}
 
-	n := c.N(400, 8000)
+	n := c.N(500, 8000)
 	for i := 0; i < n; i++ {
 		cfg := c14Cfg{bad: 0.01}
 		if i%7 == 3 {
@@ -2020,6 +2477,11 @@ func c14(c *Ctx) {
 			g = c14GenLAFam(c.Rng)
 		case i%10 == 2 || i%10 == 8:
 			cfg.pred = true
+			g = c14Gen(c.Rng, cfg)
+		case i%10 == 5:
+			g = c14GenShareFam(c.Rng)
+		case i%10 == 9:
+			cfg.sets = true
 			g = c14Gen(c.Rng, cfg)
 		default:
 			g = c14Gen(c.Rng, cfg)
@@ -2066,6 +2528,51 @@ func c14(c *Ctx) {
 				c.Violate("template instantiation changed the language: "+why, c14OneLine(text)+" :: "+bad)
 			default:
 				c.Count("predicate family: semantic comparisons")
+			}
+			continue
+		}
+		if g.HasSet {
+			// set family: no index-level protocol form; semantic comparison only (the instantiated `setof_…` nonterminals
+			// against the sets computed on the templates)
+			switch {
+			case ans == "fatal":
+				c.Count("set family: status fatal")
+				c.Violate("the compiler exits (log.Fatal) on a grammar with token sets over templated nonterminals", c14OneLine(text))
+				continue
+			case !strings.HasPrefix(ans, "ok "):
+				c.Count("set family: status err")
+				continue
+			}
+			pproto, _ := c14SplitLA(strings.TrimPrefix(ans, "ok "))
+			real, ok := c14ParseProto(pproto)
+			if !ok {
+				continue
+			}
+			c.Count("set family: status ok")
+			for f := range g.Feat {
+				c.Count("feature " + f)
+			}
+			s := g.sem()
+			if s.anyDead() && deadDefect {
+				c.Count("dead-instance grammars")
+				continue
+			}
+			L := 4
+			if g.NT <= 4 {
+				L = 5
+			}
+			if s.offPath {
+				c.Count("set family: an operand instance is not reached from the input by references (skipped: C15 computes sets on the reachable rules)")
+				continue
+			}
+			if s.emptySet {
+				c.Count("set family: a set is empty (skipped: an empty set becomes an empty rule, C13's finding class)")
+				continue
+			}
+			bad, why := c14Semantic(g, s, real, L)
+			c.Count("set family: semantic comparisons")
+			if why != "" {
+				c.Violate("template instantiation changed the language (token sets over templated nonterminals): "+why, c14OneLine(text)+" :: "+bad)
 			}
 			continue
 		}
